@@ -8,6 +8,7 @@ use crate::rdrv::*;
 use crate::rng::Rng;
 use crate::sdrv::*;
 use crate::spec::*;
+use crate::wire;
 use serde::{Deserialize, Serialize};
 use serde_json::Value;
 use std::path::Path;
@@ -34,6 +35,20 @@ pub struct Scn {
     pub two_instances: bool,
     #[serde(default)]
     pub second_after_us: u64,
+    /// the FDT packets' EXT_TIME is rewritten to its other legal form: SCT-High only (whole seconds)
+    #[serde(default)]
+    pub sct_high_only: bool,
+}
+
+/// The datagram as it is delivered: flute's own, or with EXT_TIME re-encoded as SCT-High only.
+fn on_wire(scn: &Scn, p: &Emitted) -> Vec<u8> {
+    if scn.sct && scn.sct_high_only && p.dec.toi == 0 && p.dec.sct.is_some() {
+        let mut b = wire::to_build(&p.dec);
+        b.sct_high_only = true;
+        wire::encode(&b)
+    } else {
+        p.bytes.clone()
+    }
 }
 
 pub struct C19;
@@ -69,6 +84,7 @@ pub fn gen(rng: &mut Rng, _tier: Tier) -> Scn {
         publish_frac_us: rng.range(0, 999_999),
         two_instances: rng.chance(0.3),
         second_after_us: rng.range(1_000, (duration_s * 1_000_000).min(40_000_000)),
+        sct_high_only: rng.chance(0.3),
     }
 }
 
@@ -95,7 +111,7 @@ fn receive_with_offset(scn: &Scn, ctx: &Ctx, sess: &Session, offset_s: i64) -> (
     for (t, _, p) in dl {
         let jump = if scn.jump_s != 0 && t >= second_phase && t_f != t_o { scn.jump_s } else { 0 };
         rr.offset_us = (offset_s + jump) * 1_000_000;
-        rr.push(&ep, &p.bytes, t);
+        rr.push(&ep, &on_wire(scn, p), t);
     }
     let r = completes_exact(&monitor, &sess.objs[0]);
     let trace: Vec<String> = monitor
@@ -172,7 +188,7 @@ fn run_two(scn: &Scn, ctx: &Ctx, scratch: &Path) {
         let mut dl: Vec<(u64, &Emitted)> = sess.trace.pkts.iter().map(|p| if p.dec.toi == toi_a { (t_o_eff, p) } else { (p.t_us + scn.fdt_delay_us, p) }).collect();
         dl.sort_by_key(|x| (x.0, x.1.idx));
         for (t, p) in dl {
-            rr.push(&ep, &p.bytes, t);
+            rr.push(&ep, &on_wire(scn, p), t);
         }
         let (exact_a, wrong_a, failed_a) = completes_exact(&monitor, &sess.objs[0]);
         let (exact_b, _, _) = completes_exact(&monitor, &sess.objs[1]);
@@ -317,6 +333,9 @@ pub fn run(scn: &Scn, ctx: &Ctx, scratch: &Path) {
     if scn.jump_s != 0 {
         c.count_fault("clock-jump");
     }
+    if scn.sct && scn.sct_high_only {
+        c.count_fault("ext-time-sct-high-only");
+    }
     if scn.fdt_delay_us > 0 || scn.obj_gap_us != 0 {
         c.count_fault("delay");
     }
@@ -364,6 +383,7 @@ impl Prop for C19 {
             }
         };
         push(&|n| n.jump_s = 0);
+        push(&|n| n.sct_high_only = false);
         push(&|n| n.fdt_delay_us = 0);
         push(&|n| n.scheme = Scheme::NoCode);
         push(&|n| n.inband = true);
